@@ -1341,6 +1341,12 @@ std::string Annotator::AnnotatorImpl::setAutoId(const AnyCellmlElementPtr &item)
             auto oldId = id(item);
 
             if (!isOwnedByModel(item)) {
+                auto issue = Issue::IssueImpl::create();
+                issue->mPimpl->setDescription("The item is not part of the model of this Annotator object: no identifier has been assigned.");
+                issue->mPimpl->setLevel(Issue::Level::WARNING);
+                issue->mPimpl->setReferenceRule(Issue::ReferenceRule::ANNOTATOR_INCONSISTENT_TYPE);
+                addIssue(issue);
+
                 return newId;
             }
 
